@@ -216,7 +216,7 @@ def run(replay=None):
     import re as _re
     ok_o, log_o = common.build_driver(**common.DRIVERS["otdriver"])
     oprogs = []
-    for k in range(24 if quick else 600):
+    for k in range(24 if quick else 1500):
         p = meshgen.closed_solid(rng, f"o{k}", rotate=rng.random() < 0.6, sharp=rng.random() < 0.6)
         p.q = p.ncmd + 1
         me = rng.choice([1e-8, 1e-3, 1e-2, 0.05, 0.2, 1.0, 1e9])
